@@ -25,6 +25,9 @@ func runC15(p *core.Program, r *core.Report) {
 	c15R2(p, r)
 	c15R3(p, r)
 	c15R4(p, r)
+	// R6: the rewriting of nested paths happens for every name the namer hands out (shared with C11.R6 / C03.R9)
+	namerRewriteRule(p, r, "R6")
+	c15R5(p, r)
 }
 
 // depthCounterRule checks the bracket splitter found in fn.
@@ -460,18 +463,38 @@ func c15R4(p *core.Program, r *core.Report) {
 	}
 	isEmpty := func(e ast.Expr) bool { return constStrIs(info, e, "") }
 	var blank, rewrite *ast.AssignStmt
+	var others []*ast.AssignStmt
 	ast.Inspect(body, func(n ast.Node) bool {
 		as, ok := n.(*ast.AssignStmt)
-		if !ok || len(as.Lhs) != 1 || !isPkgPathFieldOfX(as.Lhs[0]) {
+		if !ok {
+			return true
+		}
+		if len(as.Lhs) != 1 || len(as.Rhs) != 1 || !isPkgPathFieldOfX(as.Lhs[0]) {
+			// any other store into the visited node (another field, a tuple assignment)
+			for _, l := range as.Lhs {
+				if sel, isSel := ast.Unparen(l).(*ast.SelectorExpr); isSel && core.VarOf(info, sel.X) == x {
+					others = append(others, as)
+				}
+			}
 			return true
 		}
 		if constStrIs(info, as.Rhs[0], "") {
 			blank = as
 		} else if c := core.AsCall(info, as.Rhs[0], "("+core.G("pkg/namer.ImportTracker")+").LocalNameOf"); c != nil {
 			rewrite = as
+		} else {
+			others = append(others, as)
 		}
 		return true
 	})
+	// "and changes nothing else": the visited node is written by these two stores only
+	for _, as := range others {
+		r.Bad(rule, pn, "the rewrite loop writes a node otherwise than by the two path rewrites: "+core.ExprStr(as), as.Pos(),
+			"a nested reference is changed by something else than blanking the own package or substituting the tracker's name: the printed reference (or the path that is registered and compared) is no longer the one that was parsed")
+	}
+	if len(others) == 0 {
+		r.OK(rule, pn, "the visited node is written only by the two path rewrites", body.Pos(), "no other store into the node")
+	}
 	says := func(facts []cfgxFact, other func(ast.Expr) bool, want bool) bool {
 		for _, f := range facts {
 			if v, ok := eqFact(f, isPkgPathOfX, other); ok && v == want {
@@ -594,3 +617,60 @@ func printerDelimiters(f *core.Func) []string {
 	sort.Strings(out)
 	return out
 }
+
+// c15R5: PkgImportPathAndExpose hands the path half through helper functions (the vendor-prefix strip). Whatever such a
+// helper searches for inside a path must be a whole run of path segments - a constant that starts and ends with "/" -
+// otherwise a segment that merely contains the text (".../govendor/x") is cut in the middle and the two parsers no
+// longer agree on the path.
+func c15R5(p *core.Program, r *core.Report) {
+	const rule = "R5"
+	r.Floor(rule, 1)
+	f := p.FuncByName("pkg/gengo", "PkgImportPathAndExpose")
+	if f == nil {
+		r.Anchor(rule, "pkg/gengo.PkgImportPathAndExpose")
+		return
+	}
+	info := f.Info()
+	helpers := map[*core.Func]bool{}
+	ast.Inspect(f.Body, func(n ast.Node) bool {
+		ret, ok := n.(*ast.ReturnStmt)
+		if !ok || len(ret.Results) != 2 {
+			return true
+		}
+		e, _ := core.Resolve(info, f.Body, ret.Results[0])
+		for _, c := range core.Calls(e, true) {
+			if h := p.FuncOfObj(core.CalleeFunc(info, c)); h != nil {
+				for fn := range reachableFrom(p, h) {
+					helpers[fn] = true
+				}
+			}
+		}
+		return true
+	})
+	helpers[f] = true
+	n := 0
+	for h := range helpers {
+		if h.Body == nil {
+			continue
+		}
+		hinfo := h.Info()
+		for _, c := range core.Calls(h.Body, true) {
+			name := core.CalleeName(hinfo, c)
+			if !strings.HasPrefix(name, "strings.") || len(c.Args) < 2 {
+				continue
+			}
+			needle, isC := core.ConstString(hinfo, c.Args[1])
+			if !isC || !strings.ContainsAny(needle, "abcdefghijklmnopqrstuvwxyzABCDEFGHIJKLMNOPQRSTUVWXYZ") {
+				continue // single delimiters ('.', '[') are R3's business
+			}
+			n++
+			r.Check(strings.HasPrefix(needle, "/") && strings.HasSuffix(needle, "/"), rule, h, "text searched inside an import path is a whole segment run: "+name+"(_, "+strconvQuote(needle)+")", c.Pos(),
+				"the constant starts and ends with '/'", "the constant "+strconvQuote(needle)+" is not delimited by '/' on both sides: it also matches inside a longer path segment (\"github.com/kardianos/govendor/context\"), the path is cut in the middle of a segment and PkgImportPathAndExpose disagrees with ParseRef about the package")
+		}
+	}
+	if n == 0 {
+		r.OK(rule, f, "no segment search on the path half", f.Node().Pos(), "the path half is returned as sliced")
+	}
+}
+
+func strconvQuote(s string) string { return "\"" + s + "\"" }
